@@ -150,7 +150,7 @@ PlsExtraV(c, e) ==
     ELSE IF ~(IsMat(x.tnone, c.n, c.nc) /\ AllFin(x.tnone)) THEN "Shapes"
     ELSE IF ~Close(x.tnone, e.base.scores, PlsTol) THEN "TransformSpelling"
     \* (score documents Y as a 2D-array; with a vector Y the unchanged tree broadcasts (n,) against (n, 1) and returns a
-    \*  wrong number -- reported as F-19c, not asserted here)
+    \*  wrong number -- recorded in DESIGN 12, not asserted here)
     ELSE IF c.ny # 0 /\ IsFin(x.score) /\ IsFin(x.score_def) /\ AbsI(x.score - x.score_def) > ScoreTol + AbsI(x.score_def) \div 100000 THEN "ScoreIsR2"
     ELSE IF c.ny # 0 /\ IsFin(x.score) # IsFin(x.score_def) THEN "ScoreIsR2"
     \* a second, fresh estimator fitted on the very same data learns the very same model (default random_state)
